@@ -445,9 +445,9 @@ func discharge(o *Obligation, prelude, dir string, timeoutS, seed int, both bool
 			}
 			o.Detail += r.solver + "=" + r.verdict + " "
 		}
-		o.Status = "failed"
-		o.Detail = "the lock is not shown to be held here (" + strings.TrimSpace(o.Detail) + ")"
-		return
+		// not decided quickly: fall through to the full portfolio (a heavy function such as Open
+		// needs more than the short budget for the freshness argument)
+		o.Detail = ""
 	}
 	if o.goal == "false" && o.Expect != "sat" && isLockKind(o.Kind) {
 		// "this point is unreachable": decided by a short refutation attempt of the path condition;
